@@ -162,21 +162,29 @@ func Run(c *Case) *vkit.Outcome {
 	switch c.Fault {
 	case "cancel-before":
 		cancel()
-	case "store-read":
+	case "store-read", "store-read-deadline":
 		if base != nil {
 			base.SetHook(func(op string, n, seq int, _ context.Context) storekit.Action {
 				if op == "read" && n == c.K {
 					faultFired.Store(true)
+					if c.Fault == "store-read-deadline" {
+						// the store's own timeout: an error of context class
+						// while the caller's context is alive
+						return storekit.Action{Err: fmt.Errorf("store: read timed out: %w", context.DeadlineExceeded)}
+					}
 					return storekit.Action{Err: storekit.ErrInjected}
 				}
 				return storekit.Action{}
 			})
 		}
-	case "store-row":
+	case "store-row", "store-row-deadline":
 		if base != nil {
 			base.SetHook(func(op string, n, seq int, _ context.Context) storekit.Action {
 				if op == "row" && n == c.K {
 					faultFired.Store(true)
+					if c.Fault == "store-row-deadline" {
+						return storekit.Action{Err: fmt.Errorf("store: row fetch timed out: %w", context.DeadlineExceeded)}
+					}
 					return storekit.Action{Err: storekit.ErrInjected}
 				}
 				return storekit.Action{}
@@ -224,7 +232,7 @@ func Run(c *Case) *vkit.Outcome {
 			plan.QueryFail = c.K
 			plan.Arm(true)
 		}
-	case "http-err", "http-500":
+	case "http-err", "http-500", "http-deadline":
 		if srv != nil {
 			base0 := int(srv.Requests())
 			srv.SetFault(func(n int, r *http.Request) (int, error) {
@@ -232,6 +240,9 @@ func Run(c *Case) *vkit.Outcome {
 					faultFired.Store(true)
 					if c.Fault == "http-500" {
 						return 500, nil
+					}
+					if c.Fault == "http-deadline" {
+						return 0, fmt.Errorf("client timeout: %w", context.DeadlineExceeded)
 					}
 					return 0, storekit.ErrInjected
 				}
